@@ -5,6 +5,8 @@ import (
 	"encoding/json"
 	"errors"
 	"fmt"
+	"io"
+	"testing/iotest"
 
 	"mvdan.cc/sh/v3/syntax"
 	"verif/harness/hlib"
@@ -37,7 +39,7 @@ func checkOnePos(src []byte, pos syntax.Pos) string {
 	}
 	l, c := lineCol(src, off)
 	if int(pos.Line()) != l || int(pos.Col()) != c {
-		return fmt.Sprintf("error position %d:%d but offset %d is %d:%d", pos.Line(), pos.Col(), off, l, c)
+		return fmt.Sprintf("error position disagrees with its offset on a %s: says %d:%d but offset %d is %d:%d", posClass(src, off), pos.Line(), pos.Col(), off, l, c)
 	}
 	return ""
 }
@@ -82,6 +84,18 @@ func synCut(raw json.RawMessage, _ []string) (any, error) {
 			prefix := src[:i+1]
 			cuts++
 			_, err := parseSrc(prefix, lang)
+			// The same prefix through readers that signal the end of input differently: the verdict on
+			// incompleteness must not depend on it (data together with io.EOF; one byte per Read).
+			for ri, rd := range []io.Reader{iotest.DataErrReader(bytes.NewReader(prefix)), iotest.OneByteReader(bytes.NewReader(prefix))} {
+				_, err2 := syntax.NewParser(syntax.Variant(lang), syntax.KeepComments(true)).Parse(rd, "")
+				if (err == nil) != (err2 == nil) || syntax.IsIncomplete(err) != syntax.IsIncomplete(err2) {
+					if len(fails) < 20 {
+						fails = append(fails, cutFail{ln, "cut-reader-dependent", i + 1,
+							fmt.Sprintf("reader %d: plain reader says err=%v incomplete=%v, this reader says err=%v incomplete=%v",
+								ri, err != nil, syntax.IsIncomplete(err), err2 != nil, syntax.IsIncomplete(err2))})
+					}
+				}
+			}
 			if err == nil {
 				continue
 			}
